@@ -99,3 +99,21 @@ Example C03_merge_then_flat_nonvacuous :
             write_decls ["m"] (reread l) [] = Some l.
 Proof. exact merge_then_flat_nonvacuous. Qed.
 Print Assumptions C03_merge_then_flat_nonvacuous.
+
+(* ---- generic interfaces (coq/C03/Iface.v): write = module-procedure line then procedure line, read =
+   statement by statement with the kind of each statement *)
+From PV Require Import C03.Iface.
+Theorem C03_interface_roundtrip : forall i, Permutation (read_iface (write_iface i)) i.
+Proof. exact interface_roundtrip_. Qed.
+Print Assumptions C03_interface_roundtrip.
+
+Theorem C03_interface_second_write_stable : forall i, write_iface (read_iface (write_iface i)) = write_iface i.
+Proof. exact interface_second_write_stable_. Qed.
+Print Assumptions C03_interface_second_write_stable.
+
+Example C03_interface_nonvacuous :
+  let i := [("solve_banded", PPlain); ("solve_dense", PPlain); ("solve_diag", PModule); ("solve_ident", PModule)] in
+  write_iface i = [(PModule, ["solve_diag"; "solve_ident"]); (PPlain, ["solve_banded"; "solve_dense"])]
+  /\ read_iface (write_iface i) = [("solve_diag", PModule); ("solve_ident", PModule); ("solve_banded", PPlain); ("solve_dense", PPlain)].
+Proof. exact interface_nonvacuous. Qed.
+Print Assumptions C03_interface_nonvacuous.
